@@ -2,26 +2,64 @@ package hackpadfs
 
 import "strings"
 
+// stripErrPathPrefix translates the paths inside 'err' back into the caller's namespace.
+// 'err' was returned by a mounted (or sub) file system for the path 'mountSubPath', which the caller knows as 'name'.
 func stripErrPathPrefix(err error, name, mountSubPath string) error {
 	if err == nil {
 		return err
 	}
-	prefix := strings.TrimSuffix(mountSubPath, name)
 	switch err := err.(type) {
 	case *PathError:
 		return &PathError{
 			Op:   err.Op,
-			Path: strings.TrimPrefix(err.Path, prefix),
+			Path: callerPath(err.Path, name, mountSubPath),
 			Err:  err.Err,
 		}
 	case *LinkError:
 		return &LinkError{
 			Op:  err.Op,
-			Old: strings.TrimPrefix(err.Old, prefix),
-			New: strings.TrimPrefix(err.New, prefix),
+			Old: callerPath(err.Old, name, mountSubPath),
+			New: callerPath(err.New, name, mountSubPath),
 			Err: err.Err,
 		}
 	default:
 		return err
 	}
+}
+
+// callerPath converts 'p' from the namespace in which 'name' is called 'mountSubPath' to the namespace of 'name'.
+func callerPath(p, name, mountSubPath string) string {
+	const root = "."
+	switch {
+	case name == mountSubPath:
+		return p
+	case name == root:
+		// sub file system: its root is the directory 'mountSubPath'
+		return trimBasePath(p, mountSubPath)
+	case strings.HasSuffix(mountSubPath, "/"+name):
+		// sub file system: 'name' is located below a base directory
+		return trimBasePath(p, strings.TrimSuffix(mountSubPath, "/"+name))
+	case mountSubPath == root:
+		// 'name' is a mount point
+		return addBasePath(p, name)
+	case strings.HasSuffix(name, "/"+mountSubPath):
+		// 'name' is located below a mount point
+		return addBasePath(p, strings.TrimSuffix(name, "/"+mountSubPath))
+	default:
+		return p
+	}
+}
+
+func trimBasePath(p, base string) string {
+	if p == base {
+		return "."
+	}
+	return strings.TrimPrefix(p, base+"/")
+}
+
+func addBasePath(p, base string) string {
+	if p == "." {
+		return base
+	}
+	return base + "/" + p
 }
